@@ -147,6 +147,7 @@ type c01World struct {
 	skip   string
 	vios   []c01Vio
 	opName string
+	k      string // state key taken before the harness's own observations
 }
 
 func (w *c01World) fail(clause, format string, a ...any) {
@@ -374,8 +375,18 @@ func (w *c01World) check() {
 
 var c01Absent = []string{"a", "b", "c", "d", "e", "B", "z", "q", "qb", "a_0001", "a_0002", "b_0001", "a_x", "pa", " x.y", "z;w ", "x-y", "z-w", "a_0", "a_1", "a_2", "S1", "S2", "ax01", "nosuch"}
 
-// key is the canonical state key (see the file comment).
+// key is the canonical state key (see the file comment).  It is the key taken right after the last
+// operation, BEFORE the harness observed the container (its own lookups may fill caches: a state whose
+// caches are warm only because the harness looked is the same state as the cold one for the search, while a
+// state reached through the "observe" operation of the history is not).
 func (w *c01World) key() string {
+	if w.k != "" {
+		return w.k
+	}
+	return w.keyNow()
+}
+
+func (w *c01World) keyNow() string {
 	st := align.VerifDump(w.real)
 	if st == nil {
 		return "foreign"
@@ -1698,6 +1709,7 @@ func c01Run(in c01Init, ops []int, checkFrom int) *c01World {
 	}
 	if len(ops) == 0 && checkFrom <= 0 {
 		w.opName = "init"
+		w.k = w.keyNow()
 		w.check()
 	}
 	for i, oi := range ops {
@@ -1708,6 +1720,9 @@ func c01Run(in c01Init, ops []int, checkFrom int) *c01World {
 			return w
 		}
 		op.Run(w)
+		if i == len(ops)-1 && !w.pruned && len(w.vios) == 0 && w.real != nil {
+			w.k = w.keyNow()
+		}
 		if w.pruned || len(w.vios) > 0 {
 			if i >= checkFrom && len(w.vios) == 0 && !w.pruned {
 				w.check()
